@@ -34,14 +34,25 @@ variable (P : Params F E)
 /-- encoder dictionary of the spec being built × encoding caches of the call × columns so far -/
 abbrev PEncSt (F E : Type) := Dict E × Caches E × Except Err (List (ColInfo F E))
 
-/-- `dict.setdefault` with the cached state of the factor, if there is one -/
-def pRecordState (cell : Dict E) (esc : Dict E) (f : Factor) : Dict E :=
+/-- what `dict.setdefault(f, cached)` adds: the cached state of the factor, when there is one and the
+dictionary has no entry for the factor yet.  (Kept as a separate, data-valued definition so that it is
+computed once: dictionaries are functions here, and a function-valued definition that starts with
+these two look-ups would repeat them at every later look-up of its result.) -/
+def pRecordAdd (cell : Dict E) (esc : Dict E) (f : Factor) : Option E :=
   match esc f with
-  | none => cell
+  | none => none
   | some v =>
     match cell f with
-    | some _ => cell
-    | none => cell.set f v
+    | some _ => none
+    | none => some v
+
+def pRecordApply (cell : Dict E) (f : Factor) : Option E → Dict E
+  | none => cell
+  | some v => cell.set f v
+
+/-- `dict.setdefault` with the cached state of the factor, if there is one -/
+def pRecordState (cell : Dict E) (esc : Dict E) (f : Factor) : Dict E :=
+  pRecordApply cell f (pRecordAdd cell esc f)
 
 def pEncodeFactor (d : Data) (kept : List Nat) (cache : Dict (List (String × F)))
     (st : PEncSt F E) (fr : Factor × Bool) : PEncSt F E :=
@@ -51,7 +62,7 @@ def pEncodeFactor (d : Data) (kept : List Nat) (cache : Dict (List (String × F)
     match cache fr.1 with
     | none => (st.1, st.2.1, .error .keyError)
     | some fits =>
-      let c1 := pRecordState st.1 st.2.1.2 fr.1
+      let c1 := pRecordApply st.1 fr.1 (pRecordAdd st.1 st.2.1.2 fr.1)   -- = `pRecordState st.1 st.2.1.2 fr.1`
       match st.2.1.1 fr.1 fr.2 with
       | some enc => (c1, st.2.1, .ok (acc ++ [⟨fr.1, fr.2, fits, enc⟩]))
       | none =>
